@@ -209,7 +209,8 @@ def gen_kcmf(rng, cid):
         rng.shuffle(table)
         tables.append(table)
     cur, saved = 0, []
-    ops = [{"op": "get", "expect_mesh": 0}]
+    tab_of_mesh = [0, 1]       # index (into tables) of the element arrays currently valid for each mesh
+    ops = [{"op": "get", "expect_mesh": 0, "table_idx": 0}]
     for _ in range(rng.randint(4, 9)):
         r = rng.random()
         if r < 0.25:
@@ -226,9 +227,18 @@ def gen_kcmf(rng, cid):
             ops.append({"op": "needupdate"})
         elif r < 0.88:
             ops.append({"op": "clear"})
-        if ops[-1]["op"] in ("setiter", "setmesh") and rng.random() < 0.9 or rng.random() < 0.3:
-            ops.append({"op": "get", "expect_mesh": cur})
-    ops.append({"op": "get", "expect_mesh": cur})
+        else:
+            # the model changes: new element arrays for the active mesh (same groups and slots), Need_Update fired
+            tables.append([[g_, [None if x is None else gen_values(rng, len(x), False) for x in four]] for g_, four in tables[tab_of_mesh[cur]]])
+            tab_of_mesh[cur] = len(tables) - 1
+            ops.append({"op": "retable", "mesh": cur, "table_idx": tab_of_mesh[cur]})
+        if ops[-1]["op"] in ("setiter", "setmesh", "needupdate", "retable") and rng.random() < 0.4:
+            # an assembly interrupted by an exception raised in the user's Construct_local_matrix_system (caught by the
+            # harness): it must leave nothing behind that makes the next, repaired, read wrong
+            ops.append({"op": "failget"})
+        if ops[-1]["op"] in ("setiter", "setmesh", "retable", "failget") and rng.random() < 0.9 or rng.random() < 0.3:
+            ops.append({"op": "get", "expect_mesh": cur, "table_idx": tab_of_mesh[cur]})
+    ops.append({"op": "get", "expect_mesh": cur, "table_idx": tab_of_mesh[cur]})
     # the user mutates the returned matrices in place: later results (same state, and after Need_Update) must not change
     MUT = ["data", "elim", "indices", "indptr", "setdiag", "imul", "resize", "sort", None]
     out = []
@@ -236,10 +246,10 @@ def gen_kcmf(rng, cid):
         out.append(o)
         if o["op"] == "get" and rng.random() < 0.5:
             o["mutate"] = [rng.choice(MUT) for _ in range(4)]
-            out.append({"op": "get", "expect_mesh": o["expect_mesh"]})
+            out.append({"op": "get", "expect_mesh": o["expect_mesh"], "table_idx": o["table_idx"]})
             if rng.random() < 0.5:
                 out.append({"op": "needupdate"})
-                out.append({"op": "get", "expect_mesh": o["expect_mesh"]})
+                out.append({"op": "get", "expect_mesh": o["expect_mesh"], "table_idx": o["table_idx"]})
     ops = out
     conn = {str(g["gid"]): g["connect"] for m in meshes for g in m["groups"]}
     nPe = {str(g["gid"]): g["nPe"] for m in meshes for g in m["groups"]}
@@ -296,8 +306,10 @@ def emit_defs(case):
             tb = "[" + ";".join("(%d,(%s,%s,%s,%s))" % ((gid,) + tuple(vals(x, cplx) for x in four)) for gid, four in op["table"]) + "]"
             ops.append("OAssembly %s %d %d %s" % (V, op["pt"], case["dof_n"][op["pt"]], tb))
         elif k == "get":      # Get_K_C_M_F after the changes = Assembly() of the active mesh with its element arrays
-            tb = "[" + ";".join("(%d,(%s,%s,%s,%s))" % ((gid,) + tuple(vals(x, cplx) for x in four)) for gid, four in case["tables"][op["expect_mesh"]]) + "]"
+            tb = "[" + ";".join("(%d,(%s,%s,%s,%s))" % ((gid,) + tuple(vals(x, cplx) for x in four)) for gid, four in case["tables"][op["table_idx"]]) + "]"
             ops.append("OAssembly %s 0 %d %s" % (V, case["dof_n"][0], tb))
+        elif k in ("retable", "failget"):   # new element arrays + Need_Update / an assembly that did not complete: mesh, cache, Ndof unchanged
+            ops.append("ONeedUpdate %s" % V)
         elif k == "setiter":  # Set_Iter -> __Update_mesh(index of the mesh of that iteration)
             ops.append("OUpdateMesh %s env_%d %d" % (V, cid, case["meshes"][op["mesh"]]["Nn"]))
         elif k == "save":
@@ -465,6 +477,10 @@ def correspondence(ctx):
         elif case.get("kcmf") and pf.get("alias"):
             key = "returned-matrices-alias-internal-state"
             what = "Get_K_C_M_F #%d: %s" % (pf["assembly_index"], pf["impl"])
+        elif case.get("kcmf") and any(o["op"] == "failget" for o in case["ops"][:pf["op_index"]]) and pf.get("active_mesh") == pf.get("expected_mesh"):
+            key = "assembly-not-scatter-add:after-interrupted-assembly"
+            what = "Get_K_C_M_F #%d slot %s is not the scatter-add of the CURRENT element arrays after an assembly that was interrupted by an exception (ops %s): the failed call left state behind (stale matrices served)" % (
+                pf["assembly_index"], pf["slot"], [o["op"] for o in case["ops"][:pf["op_index"] + 1]])
         elif case.get("kcmf") and any(o.get("mutate") for o in case["ops"][:pf["op_index"]]) and pf.get("active_mesh") == pf.get("expected_mesh"):
             key = "assembly-not-scatter-add:after-mutating-returned-matrices"
             what = "Get_K_C_M_F #%d slot %s is not the scatter-add after the user modified previously RETURNED matrices in place (%s): returned objects alias internal state (stored matrices / cached pattern)" % (
